@@ -65,3 +65,10 @@ reg("C11", MC, "bounded exhaustive enumeration of block-occupancy vectors x cros
     "coverage, the balance bound or the equal-block fall-back, the prescribed number of test blocks, best-balanced candidate choice and "
     "reproducibility.", "sklearn KFold/ShuffleSplit trusted; candidate shuffles observed via a recording subclass patched into "
     "verde.model_selection (reported as not observed if a refactoring stops using that symbol).", "DESIGN.md section 5, C11")
+reg("C03", MC, "exhaustive enumeration of a distance/direction/parameter lattice with a 50-digit decimal oracle per kernel entry",
+    "Every entry of the public jacobian matrices of Spline and VectorSpline2D over a lattice of distances (0, every decade 1e-12..1e8, "
+    "both sides of the r=1 branch switch and of r=e), directions, mindist and Poisson values is compared with the documented formula "
+    "evaluated in 50-digit decimal arithmetic; predict with externally set parameters must equal jacobian @ parameters (so a "
+    "self-consistent wrong kernel cannot hide behind a fit); translation invariance is asserted bitwise on dyadic coordinates; Trend "
+    "monomials exactly on integers; CheckerBoard formula; Linear/Cubic bitwise against SciPy.",
+    "Python's decimal module is the trusted high-precision evaluator; numba kernels not executable here.", "DESIGN.md section 5, C03")
